@@ -479,3 +479,29 @@ def validate_evidence(path):
         r = subprocess.run([vt, '-c', code, path, schema], capture_output=True, text=True)
         if r.returncode != 0:
             raise HarnessError('evidence fails schema validation: ' + r.stderr[-600:])
+
+
+class ResultKeeper:
+    """Results handed out by the library belong to the caller: a later call must not rewrite them (shared result templates, module-level buffers).
+    add() keeps the live object next to a pickle taken at once; changed() lists the results whose content is no longer what was returned."""
+
+    def __init__(self):
+        self.items = []
+
+    def add(self, desc, value):
+        import pickle
+        try:
+            self.items.append((desc, value, pickle.dumps(value, protocol=4)))
+        except Exception:
+            pass
+
+    def changed(self):
+        import pickle
+        out = []
+        for i, (desc, value, snap) in enumerate(self.items):
+            try:
+                if pickle.dumps(value, protocol=4) != snap:
+                    out.append((i, desc))
+            except Exception:
+                out.append((i, desc))
+        return out
